@@ -578,6 +578,8 @@ pub fn build_history(g: &Genome, prog: &Program, cfg: &GenCfg) -> History {
             let extra = rd.pick(prog.n_res as usize) as ResId;
             if !report.contains(&extra) { let at = rd.pick(report.len() + 1); report.insert(at, extra); }
           }
+          // ... or the same resource is reported twice (the second scheduling pass finds its tasks already scheduled).
+          if !report.is_empty() && rd.chance(1, 3) { let dup = report[rd.pick(report.len())]; let at = rd.pick(report.len() + 1); report.insert(at, dup); }
         }
         builds.push(Build::BottomUp { report, then });
         // Long session: further rounds of (external changes while the session stays open, bottom-up build reporting
